@@ -965,8 +965,27 @@ theorem mem_roleMWrites (personsIds : List String) (gidx : Nat) (rd : Role × Do
 
 
 /-- the membership writes for the persons left out of a group kind -/
-def ownMWrites (personsIds gids' : List String) (r0 : String) (left : List String) : List MWrite :=
-  left.map (fun pid => (⟨personsIds.idxOf pid, gids'.idxOf pid, r0⟩ : MWrite))
+def ownMWrites (personsIds : List String) (ngids : Nat) (r0 : String) (left : List String) : List MWrite :=
+  (List.zipIdx left).map (fun (pid, off) => (⟨personsIds.idxOf pid, ngids + off, r0⟩ : MWrite))
+
+theorem ownMWrites_pidx (personsIds : List String) (ngids : Nat) (r0 : String) (left : List String) :
+    (ownMWrites personsIds ngids r0 left).map (·.pidx) = left.map (fun p => personsIds.idxOf p) := by
+  unfold ownMWrites
+  rw [List.map_map]
+  have : ((fun (w : MWrite) => w.pidx) ∘ fun (x : String × Nat) =>
+      (⟨personsIds.idxOf x.1, ngids + x.2, r0⟩ : MWrite)) = (fun p => personsIds.idxOf p) ∘ Prod.fst := by
+    funext x; rfl
+  rw [this, ← List.map_map, List.zipIdx_map_fst]
+
+theorem mem_ownMWrites (personsIds : List String) (ngids : Nat) (r0 : String) (left : List String)
+    (pid : String) (h : pid ∈ left) :
+    (⟨personsIds.idxOf pid, ngids + left.idxOf pid, r0⟩ : MWrite) ∈ ownMWrites personsIds ngids r0 left := by
+  unfold ownMWrites
+  apply List.mem_map.mpr
+  refine ⟨(pid, left.idxOf pid), List.mem_zipIdx_iff_getElem?.mpr ?_, rfl⟩
+  have hlt := List.idxOf_lt_length_of_mem h
+  simp only
+  rw [List.getElem?_eq_getElem hlt, List.getElem_idxOf hlt]
 
 /-- what a successful `add_group_entity` gives -/
 theorem addGroupEntity_ok {sys : Sys} {dp : Option String} {g : GroupKind} {personsIds : List String}
@@ -976,7 +995,7 @@ theorem addGroupEntity_ok {sys : Sys} {dp : Option String} {g : GroupKind} {pers
       e.key = g.key ∧ e.plural = g.plural ∧ e.isPerson = false ∧
       e.ids = kvs.map (fun kv => kv.1.text) ++ acc.toAlloc ∧
       (∃ own, (acc.toAlloc = [] ∧ own = [] ∨
-          ∃ r0, g.flatRoles.head? = some r0 ∧ own = ownMWrites personsIds e.ids r0 acc.toAlloc) ∧
+          ∃ r0, g.flatRoles.head? = some r0 ∧ own = ownMWrites personsIds kvs.length r0 acc.toAlloc) ∧
         e.memb = (applyM personsIds.length (acc.mws ++ own)).1 ∧
         e.roles = (applyM personsIds.length (acc.mws ++ own)).2) ∧
       buf' = (if acc.toAlloc = [] then applyWrites buf acc.ws
@@ -998,23 +1017,25 @@ theorem addGroupEntity_ok {sys : Sys} {dp : Option String} {g : GroupKind} {pers
       | some r0 =>
         rw [hr] at h
         cases h
-        refine ⟨acc, rfl, rfl, rfl, rfl, rfl, ⟨_, Or.inr ⟨r0, rfl, rfl⟩, rfl, rfl⟩, by simp [hl]⟩
+        refine ⟨acc, rfl, rfl, rfl, rfl, rfl, ⟨_, Or.inr ⟨r0, rfl, ?_⟩, rfl, rfl⟩, by simp [hl]⟩
+        unfold ownMWrites; simp
 
 
 /-! ## the flush order -/
 
-theorem periodLe_iff (p q : Period) : periodLe p q = true ↔
-    unitWeight p.unit < unitWeight q.unit ∨ (unitWeight p.unit = unitWeight q.unit ∧ p.size ≤ q.size) := by
-  unfold periodLe; simp
+theorem keyLe_trans (a b c : Option Int × Int) (h1 : keyLe a b = true) (h2 : keyLe b c = true) :
+    keyLe a c = true := by
+  obtain ⟨a1, a2⟩ := a
+  obtain ⟨b1, b2⟩ := b
+  obtain ⟨c1, c2⟩ := c
+  unfold keyLe at *
+  cases a1 <;> cases b1 <;> cases c1 <;> simp at * <;> omega
 
-theorem periodLe_trans (a b c : Period) (h1 : periodLe a b = true) (h2 : periodLe b c = true) :
-    periodLe a c = true := by
-  rw [periodLe_iff] at *
-  omega
-
-theorem periodLe_total (a b : Period) : (periodLe a b || periodLe b a) = true := by
-  rw [Bool.or_eq_true, periodLe_iff, periodLe_iff]
-  omega
+theorem keyLe_total (a b : Option Int × Int) : (keyLe a b || keyLe b a) = true := by
+  obtain ⟨a1, a2⟩ := a
+  obtain ⟨b1, b2⟩ := b
+  unfold keyLe
+  cases a1 <;> cases b1 <;> simp <;> omega
 
 theorem insertBy_perm {α : Type} (le : α → α → Bool) (x : α) : ∀ l : List α, (insertBy le x l).Perm (x :: l)
   | [] => List.Perm.refl _
@@ -1067,14 +1088,37 @@ theorem sortBy_pairwise {α : Type} (le : α → α → Bool)
   | x :: xs => insertBy_pairwise le htrans htotal x _ (sortBy_pairwise le htrans htotal xs)
 
 theorem sortedPeriods_ok {buf : Buffer} {v : String} {ps : List Period} (h : sortedPeriods buf v = .ok ps) :
-    ∃ qs, mapE (fun ck => match parsePeriod ck with
-        | .ok p => (.ok p : R Period)
-        | .error _ => .error .other) (varKeys buf v) = .ok qs ∧ ps = sortBy periodLe qs := by
+    ∃ qs kps, mapE parseBuffered (varKeys buf v) = .ok qs ∧ mapE keyedPeriod qs = .ok kps ∧
+      ps = (sortBy (fun a b => keyLe a.1 b.1) kps).map (fun kp => kp.2) := by
   unfold sortedPeriods at h
-  split at h
-  · cases h
-  · rename_i qs hq; cases h; exact ⟨qs, hq, rfl⟩
+  cases hq : mapE parseBuffered (varKeys buf v) with
+  | error e => rw [hq] at h; cases h
+  | ok qs =>
+    rw [hq] at h
+    simp only at h
+    cases hk : mapE keyedPeriod qs with
+    | error e => rw [hk] at h; cases h
+    | ok kps => rw [hk] at h; cases h; exact ⟨qs, kps, rfl, hk, rfl⟩
 
+theorem keyedPeriod_ok {p : Period} {kp : (Option Int × Int) × Period} (h : keyedPeriod p = .ok kp) :
+    kp.2 = p ∧ flushKey p = .ok kp.1 := by
+  unfold keyedPeriod at h
+  cases hf : flushKey p with
+  | error e => rw [hf] at h; cases h
+  | ok k => rw [hf] at h; cases h; exact ⟨rfl, rfl⟩
+
+theorem all₂_keyed {qs : List Period} {kps : List ((Option Int × Int) × Period)}
+    (hall : All₂ (fun p kp => keyedPeriod p = .ok kp) qs kps) :
+    kps.map (fun kp => kp.2) = qs ∧ ∀ kp ∈ kps, flushKey kp.2 = .ok kp.1 := by
+  induction hall with
+  | nil => exact ⟨rfl, fun kp h => by cases h⟩
+  | @cons a b l l' hab _ ih =>
+    obtain ⟨h1, h2⟩ := keyedPeriod_ok hab
+    refine ⟨by simp [h1, ih.1], ?_⟩
+    intro kp hkp
+    rcases List.mem_cons.mp hkp with e | hm
+    · rw [e, h1]; exact h2
+    · exact ih.2 kp hm
 
 /-! ## documents that differ only in the spelling of period keys -/
 
